@@ -85,6 +85,13 @@ def init (rootCap : Nat) : S :=
     nextReq := 0, glog := [], ticks := 0, setCaps := 0, capHi := rootCap,
     capMax := fun _ _ => rootCap, tpc := .sel, cpc := .idle, holder := .free }
 
+/-- `max(capacity, 0)`: what `rate.New`, `Limiter.New` and `SetCap` store for the Go `int` they are given (limiter.go:54,
+    122, 158; commit 4e94d2c) — a negative capacity grants nothing, like zero -/
+def clampCap (c : Int) : Nat := c.toNat
+
+/-- `rate.New(capacity, period)` for any Go `int` -/
+def initGo (c : Int) : S := init (clampCap c)
+
 def upd {α : Type} (f : Nat → α) (i : Nat) (v : α) : Nat → α := fun x => if x = i then v else f x
 
 /-- `available >= amount`, `available` being the minimum of `capacity - used` along the chain -/
@@ -379,9 +386,9 @@ theorem runMicros_steps (s : S) (ms : List Micro) : Steps s (runMicros s ms) := 
 inductive Op
   | use (l : Nat) (amt : Int)
   | tick
-  | newChild (p c : Nat)
+  | newChild (p : Nat) (c : Int)    -- the capacity argument is any Go `int`; the call stores `clampCap c`
   | close (l : Nat)
-  | setCap (l c : Nat)
+  | setCap (l : Nat) (c : Int)
 deriving Repr
 
 /-- the steps a fused call consists of -/
@@ -389,7 +396,7 @@ def plan (s : S) : Op → List Micro
   | .use l amt =>
     if l < s.n then (if amt < 0 then [.useNeg] else if s.holder = .free then [.apiLock, .use l amt.toNat] else []) else []
   | .tick => if s.tpc = .sel ∧ s.holder = .free then [.tickFires, .tickLock, .tickRuns, .tickUnlock] else []
-  | .newChild p c => if p < s.n ∧ s.holder = .free then [.apiLock, .newChild p c] else []
+  | .newChild p c => if p < s.n ∧ s.holder = .free then [.apiLock, .newChild p (clampCap c)] else []
   | .close l =>
     if l < s.n ∧ s.holder = .free then
       if l = 0 then
@@ -399,7 +406,7 @@ def plan (s : S) : Op → List Micro
         else []
       else [.apiLock, .closeChild l]
     else []
-  | .setCap l c => if l < s.n ∧ s.holder = .free then [.apiLock, .setCap l c] else []
+  | .setCap l c => if l < s.n ∧ s.holder = .free then [.apiLock, .setCap l (clampCap c)] else []
 
 def exec (s : S) (op : Op) : S := runMicros s (plan s op)
 
